@@ -3,10 +3,10 @@
    proofs/RightsP.v.  The constructions are those evaluated by the harness (run/Run_C10.v). *)
 From DV Require Import RightsSpec RightsP RoomNode RoomNodeP Run_C10 C10P.
 
-(* the full statement over the four constructions of the model; it is REFUTED on the unchanged tree
-   (theorems C10_refuted_1..4) and holds for the live/reload half outside the delimited classes
-   (theorem C10_outside_known_partial); the two import constructions are tied to the code by the
-   correspondence runs only *)
+(* the full statement over the four constructions of the model.  After the repairs 83dc3ea, a68fe8d,
+   85b1827 its live/reload half HOLDS for every history (C10_restart_holds, C10_live_is_history,
+   C10_reload_holds); its import half is still refuted by the same-millisecond tie class
+   (C10_refuted_3) and is otherwise tied to the code by the correspondence runs only *)
 Definition C10_full : Prop :=
   forall author steps probes, all_accepted steps ->
     let dl := decisions (fst (live steps)) probes in
@@ -16,21 +16,18 @@ Definition C10_full : Prop :=
     (let '(vs, rb) := chain author None None (prefixes [] steps) in
      forallb (fun v => Z.leb v 1) vs = true /\ dec_opt rb probes = 1 :: dl).
 
-(* (1) the reason restart and first import break, for every list and every history: a list replayed
-   newest first into the append-only per-key histories of room.rs is refused as soon as one key has
-   two entries with different dates *)
-Theorem C10_newest_first_replay_fails : forall (A : Type) (kf : A -> N) (df : A -> Z) (l : list A) x y,
-  In x l -> In y l -> kf x = kf y -> df x <> df y -> greplay A kf df [] (desc_by df l) = None.
-Proof. exact @greplay_desc_two_dates. Qed.
-Print Assumptions C10_newest_first_replay_fails.
+(* (1) the repaired replay (83dc3ea), for every list of every history: entries sorted oldest first (stable)
+   are all accepted by the append-only per-key histories of room.rs *)
+Theorem C10_oldest_first_replay_holds : forall (A : Type) (kf : A -> N) (df : A -> Z) (l : list A),
+  greplay A kf df [] (sort_by df l) = Some (rev (sort_by df l)).
+Proof. exact @greplay_sorted. Qed.
+Print Assumptions C10_oldest_first_replay_holds.
 
-(* (2) the data an instance wrote itself can be reloaded EXACTLY when the history lies outside class 1
-   of known_C10 (no key or entity with two differently dated entries in one list) *)
-Theorem C10_restart_iff_outside_class1 : forall evs,
-  groups_known (map snd evs) ->
-  ((exists r, reload evs = Some r) <-> two_dates (entry_keys (map snd evs)) = false).
-Proof. exact restart_iff. Qed.
-Print Assumptions C10_restart_iff_outside_class1.
+(* (2) former class 1, at full strength: an instance can always be restarted on the data it wrote -
+   the reload of ANY stored history succeeds *)
+Theorem C10_restart_holds : forall evs, exists r, reload evs = Some r.
+Proof. exact reload_total. Qed.
+Print Assumptions C10_restart_holds.
 
 (* (3) the live room decides what the history grants (all five probe components) *)
 Theorem C10_live_is_history : forall steps probes,
@@ -39,16 +36,26 @@ Theorem C10_live_is_history : forall steps probes,
 Proof. exact live_is_history. Qed.
 Print Assumptions C10_live_is_history.
 
-(* (4) outside classes 1 and 2 the reloaded room exists and decides exactly as the live room, for
-   every history and every probe; same-date entries (class 3) included: the reload meets them in
-   insertion order.  Partial: the import constructions are not covered by a theorem. *)
-Theorem C10_outside_known_partial : forall steps probes,
+(* (4) former classes 1 and 2, at full strength: for every history the live path accepted the reloaded
+   room exists and decides exactly as the live room, for every probe; same-date entries included
+   (the reload meets them in insertion order).  The import constructions are not covered by a theorem
+   of this kind: see level_note. *)
+Theorem C10_reload_holds : forall steps probes,
   all_accepted steps ->
-  two_dates (entry_keys (events_of steps)) = false ->
-  normalised (events_of steps) = true ->
   dec_opt (reload (concat steps)) probes = 1 :: decisions (fst (live steps)) probes.
-Proof. exact reload_part_outside_known. Qed.
-Print Assumptions C10_outside_known_partial.
+Proof. exact reload_part_holds. Qed.
+Print Assumptions C10_reload_holds.
+
+(* (4b) former class 4 (85b1827): a group new to the peer whose user-admin entries, users and rights are
+   authored by room administrators - what the local path accepts from an administrator - is accepted *)
+Theorem C10_new_group_by_admin_holds : forall r g a,
+  parse_auth g = POk a ->
+  Forall (fun x => is_admin r (un_author x) (un_date x) = true) (an_anodes g) ->
+  Forall (fun x => is_admin r (un_author x) (un_date x) = true) (an_unodes g) ->
+  Forall (fun x => is_admin r (rn_author x) (rn_date x) = true) (an_rnodes g) ->
+  prepare_new_auth r g = POk tt.
+Proof. exact new_group_by_admin_accepted. Qed.
+Print Assumptions C10_new_group_by_admin_holds.
 
 (* (5) a definition that RoomNode::parse accepts gives the room that decides exactly what the entries
    it lists grant: whatever an importing peer accepts means what its rows say *)
@@ -57,24 +64,23 @@ Theorem C10_parsed_definition_is_history : forall n r probes,
 Proof. exact parse_room_decisions. Qed.
 Print Assumptions C10_parsed_definition_is_history.
 
-(* (6) closed witnesses, one per known-finding class; the harness replays them on the real code *)
-Theorem C10_refuted_1 : known_C10 w1 = [1] /\ spec_C10 w1 (run_C10 w1) = false /\
-                        known_C10 w1h = [1] /\ spec_C10 w1h (run_C10 w1h) = false.
-Proof. exact refuted_1. Qed.
-Print Assumptions C10_refuted_1.
-Theorem C10_refuted_2 : known_C10 w2 = [2] /\ spec_C10 w2 (run_C10 w2) = false.
-Proof. exact refuted_2. Qed.
-Print Assumptions C10_refuted_2.
+(* (6) the witnesses of the repaired classes 1, 2, 4 now pass the oracle (the harness keeps replaying
+   them on the real code); the witness of the open class 3 still fails it *)
+Theorem C10_class1_witness_holds : known_C10 w1 = [] /\ spec_C10 w1 (run_C10 w1) = true /\
+                                   known_C10 w1h = [] /\ spec_C10 w1h (run_C10 w1h) = true.
+Proof. exact repaired_1. Qed.
+Print Assumptions C10_class1_witness_holds.
+Theorem C10_class2_witness_holds : known_C10 w2 = [] /\ spec_C10 w2 (run_C10 w2) = true.
+Proof. exact repaired_2. Qed.
+Print Assumptions C10_class2_witness_holds.
 Theorem C10_refuted_3 : known_C10 w3 = [3] /\ spec_C10 w3 (run_C10 w3) = false.
 Proof. exact refuted_3. Qed.
 Print Assumptions C10_refuted_3.
-Theorem C10_refuted_4 : known_C10 w4 = [4] /\ spec_C10 w4 (run_C10 w4) = false.
-Proof. exact refuted_4. Qed.
-Print Assumptions C10_refuted_4.
+Theorem C10_class4_witness_holds : known_C10 w4 = [] /\ spec_C10 w4 (run_C10 w4) = true.
+Proof. exact repaired_4. Qed.
+Print Assumptions C10_class4_witness_holds.
 
 Example C10_nonvacuous :
-  known_C10 w0 = [] /\ spec_C10 w0 (run_C10 w0) = true /\
-  all_accepted (case_steps w0) /\ two_dates (entry_keys (events_of (case_steps w0))) = false /\
-  normalised (events_of (case_steps w0)) = true.
+  known_C10 w0 = [] /\ spec_C10 w0 (run_C10 w0) = true /\ all_accepted (case_steps w0).
 Proof. exact nonvacuous_0. Qed.
 Print Assumptions C10_nonvacuous.
